@@ -25,7 +25,8 @@ def make_ctx(spec: dict, all_visible: bool = False) -> explore.Ctx:
 
     def factory():
         a = session.scripted_setup(plans, session.conforming_clients(plans, spec['teams'], nts, spec.get('sequential', False), spec.get('linger', False)),
-                                   server_kwargs=None, fragment=spec.get('fragment'), existing_output=spec.get('existing_output'))
+                                   server_kwargs=None, fragment=spec.get('fragment'), existing_output=spec.get('existing_output'),
+                                   seat_table_visible=not spec.get('plain_seats'))
         if not spec_b:
             return a
         b = session.scripted_setup(plans_b, session.conforming_clients(plans_b, spec_b['teams'], scen.notations_of(spec_b), prefix='cl2'), table=1)
